@@ -745,6 +745,18 @@ def prov_squash(repo, tier="quick"):
             return False
         extra_tests = [t_ for t_ in tests if not about_pair(t_[0], t_[2])]
         tests = [t_ for t_ in tests if about_pair(t_[0], t_[2])]
+        # `if kept == removed: continue` -- both ends are one atom already (a ring of shared atoms): nothing left to merge
+        same_atom = []
+        for test, pol, gid in list(extra_tests):
+            g = fl.canon(test, gid)
+            if not pol and g[0] == "cmp" and g[1] == ("==",) and set(g[2]) == {keep, rem}:
+                same_atom.append((test, pol, gid))
+            elif pol and g[0] == "cmp" and g[1] == ("!=",) and set(g[2]) == {keep, rem}:
+                same_atom.append((test, pol, gid))
+        for x in same_atom:
+            extra_tests.remove(x)
+            obs.append(ob_ok("PROV.squash-protocol", fi, x[0], construct="skip when both ends are the same atom already", instance="guard:same-atom",
+                             reason="contracting an atom with itself would only destroy it"))
         for test, pol, gid in extra_tests:
             obs.append(ob_undecided("PROV.squash-protocol", fi, test, construct="extra condition on the contraction: %s" % ast.unparse(test), instance="guard:extra",
                                     reason="a '!' bond is contracted only under an additional condition the rule cannot interpret"))
@@ -796,22 +808,80 @@ def prov_squash(repo, tier="quick"):
             if hit == ("sub", D, e) and miss == e:
                 return D
         return None
-    d0 = remapped(keep, 0) if keep else None
-    d1 = remapped(rem, 1) if rem else None
+    def followed(x, idx):
+        """x = e; while x in D: x = D[x]   -- the endpoint followed through every earlier merge; returns D"""
+        if not (x is not None and x[0] == "var" and len(x) == 3 and len(x[2]) == 2):
+            return None
+        e = _fold_sub(fl, edge_t, idx)
+        ds = [fl.defs[i] for i in x[2]]
+        init = [d for d in ds if d.kind == "assign" and not d.path and d.value is not None and fl.canon(d.value, d.node) == e]
+        step = [d for d in ds if d not in init and d.kind == "assign" and not d.path and d.value is not None]
+        if len(init) != 1 or len(step) != 1:
+            return None
+        sv = fl.canon(step[0].value, step[0].node)
+        if not (sv[0] == "sub" and sv[2][0] == "var" and sv[2][1] == x[1]):
+            return None
+        D = sv[1]
+        wl = [l for l in enclosing_loops(fi, step[0].node) if l.kind == "while"]
+        if not wl:
+            return None
+        tt = fl.canon(wl[0].ast.test, wl[0].id)
+        if tt[0] == "cmp" and tt[1] == ("in",) and tt[2][0][0] == "var" and tt[2][0][1] == x[1] and tt[2][1] == D and \
+                cfg.dominates(init[0].node, wl[0].id) and cfg.dominates(wl[0].id, nid):
+            return D
+        return None
+    one_level = False
+    d0 = followed(keep, 0) if keep else None
+    d1 = followed(rem, 1) if rem else None
+    if d0 is None and d1 is None and keep is not None and rem is not None:
+        d0s, d1s = followed(keep, 1), followed(rem, 0)
+        if d0s is not None and d1s is not None:
+            d0, d1 = d0s, d1s
+    if d0 is None or d1 is None:
+        one_level = True
+        d0 = remapped(keep, 0) if keep else None
+        d1 = remapped(rem, 1) if rem else None
     if d0 is None and keep is not None:
         d0s = remapped(keep, 1)
         d1s = remapped(rem, 0) if rem else None
         if d0s is not None and d1s is not None:
             d0, d1 = d0s, d1s
     ends_ok = d0 is not None and d1 is not None and d0 == d1
+    if ends_ok and one_level:
+        # a single look-up is enough only if the record is kept flat: every entry that points to the atom removed now is
+        # re-pointed to the atom it is merged into (for k, v in D.items(): if v == removed: D[k] = kept)
+        flat = False
+        for n in cfg.nodes:
+            if n.kind == "stmt" and isinstance(n.ast, ast.Assign) and isinstance(n.ast.targets[0], ast.Subscript) and lp.id in [l.id for l in enclosing_loops(fi, n.id)]:
+                tt = fl.canon(n.ast.targets[0], n.id)
+                vv = fl.canon(n.ast.value, n.id)
+                ek = elem_of(tt[2]) if tt[0] == "sub" else None
+                if tt[0] == "sub" and tt[1] == d0 and vv == keep and ek and ek[0] == "key" and strip_wrappers(ek[1]) == d0:
+                    for test, pol, gid in guards_of(fi, n.id):
+                        g = fl.canon(test, gid)
+                        if pol and g[0] == "cmp" and g[1] == ("==",) and rem in g[2]:
+                            ev = elem_of([y for y in g[2] if y != rem][0]) if len(g[2]) == 2 else None
+                            if ev and ev[0] == "value" and ev[1] == ek[1]:
+                                flat = True
+        if not flat:
+            obs.append(ob_fail("PROV.squash-protocol", fi, call, construct="contracted_nodes(G, squashed.get(e0, e0), squashed.get(e1, e1))", instance="endpoints:followed",
+                               reason="an endpoint is looked up in the record of earlier merges once only: when the atom it was merged into has been merged "
+                                      "into a third one since, the contraction names an atom that no longer exists (one atom shared by four fragments, "
+                                      "listed so that the kept copy is removed later)"))
+        else:
+            obs.append(ob_ok("PROV.squash-protocol", fi, call, construct="record kept flat: entries of the removed atom are re-pointed", instance="endpoints:followed",
+                             reason="one look-up reaches the surviving atom"))
+    elif ends_ok:
+        obs.append(ob_ok("PROV.squash-protocol", fi, call, construct="x = e; while x in squashed: x = squashed[x]", instance="endpoints:followed",
+                         reason="an endpoint is followed through every earlier merge to the atom that still exists"))
     if ends_ok:
         fresh = d0 == ("dict", ()) or (d0[0] == "call" and d0[2] == ("builtin", "dict") and not d0[3] and not d0[4])
         (obs.append(ob_ok("PROV.squash-protocol", fi, call, construct="merge record is a fresh local dict per call", instance="remap-fresh",
                           reason="node keys restart at every resolution level; a record kept from an earlier level would redirect unrelated atoms")) if fresh else
          obs.append(ob_fail("PROV.squash-protocol", fi, call, construct="merge record is %s" % show(d0), instance="remap-fresh",
                             reason="the record of earlier merges outlives the call: entries from a previous resolution level redirect '!' bonds of this level")))
-    (obs.append(ob_ok("PROV.squash-protocol", fi, call, construct="contracted_nodes(G, squashed.get(e0, e0), squashed.get(e1, e1))", instance="endpoints",
-                      reason="the merged atoms are the '!' bond's endpoints, followed through earlier merges")) if ends_ok else
+    (obs.append(ob_ok("PROV.squash-protocol", fi, call, construct="contracted_nodes(G, <e0 through the merge record>, <e1 through the merge record>)", instance="endpoints",
+                      reason="the merged atoms are the '!' bond's endpoints, read through the record of earlier merges")) if ends_ok else
      obs.append(ob_fail("PROV.squash-protocol", fi, call, construct="contracted_nodes(G, %s, %s)" % (show(keep), show(rem)), instance="endpoints",
                         reason="the merged atoms are not the endpoints of the '!' bond remapped through the record of earlier merges")))
     # the removed node is recorded: squashed[rem] = keep on every path to the contraction (or after)
